@@ -23,6 +23,11 @@ def main():
     only = next((a.split("=", 1)[1] for a in sys.argv[1:] if a.startswith("--only=")), "")
     ids = [a for a in sys.argv[1:] if not a.startswith("--")] or sorted(d for d in os.listdir(SEEDED) if re.fullmatch(r"C\d\d", d))
     res = {}
+    # a scratch worktree lacks the generated, git-ignored version.py: take /repo's
+    vpy = os.path.join(REPO, "src", "gtirb_rewriting", "version.py")
+    if not os.path.exists(vpy) and os.path.exists("/repo/src/gtirb_rewriting/version.py"):
+        import shutil
+        shutil.copy("/repo/src/gtirb_rewriting/version.py", vpy)
     for pid in ids:
         for k in sorted(os.listdir(os.path.join(SEEDED, pid))):
             md = os.path.join(SEEDED, pid, k)
